@@ -604,6 +604,10 @@ func genC13(c *hlib.Ctx) {
 				m2 = c13MatcherGen(r)
 			case 5:
 				m2.t = r.Intn(4)
+			case 6: // the operator's first character moves into the name: n != v  vs  n! = v
+				m1.t = 1
+				m2 = c13Matcher{t: 0, n: m1.n + "!", v: m1.v}
+				c.Count("mpair:bang-moves")
 			}
 			out := c.Do(fmt.Sprintf("mpair %d %s %s %d %s %s", m1.t, hlib.HexS(m1.n), hlib.HexS(m1.v), m2.t, hlib.HexS(m2.n), hlib.HexS(m2.v)), true)
 			c.Count("mpair:" + out)
